@@ -312,6 +312,7 @@ func runCrash(p *Plan, tape *simrt.Tape, opt RunOpt) *RunOut {
 	out.Steps += res.Steps
 	out.SimTime += res.SimTime
 	out.SchedHash = res.SchedHash
+	out.Switches += res.Switches
 	out.Outcome = res.Outcome.String()
 	if w.Preemptions > 0 {
 		out.Faults["preempt"] += w.Preemptions
